@@ -1,3 +1,4 @@
 """Sidecar contracts for python-engineio. Importing this package fills pyvc.contract.REG."""
 from . import schemas      # noqa
 from . import c_packet     # noqa
+from . import c_base_server  # noqa
